@@ -273,8 +273,65 @@ def equality_rule(repo: Repo, rep: Report, rid: str) -> None:
     rep.floor(rid, "equality obligations", n, 6)
 
 
+DECODERS = ("from_bytes", "unpack", "unpack_from", "iter_unpack")
+
+
+def own_codec_rule(repo: Repo, rep: Report, rid: str) -> None:
+    rep.rule(rid, "enums and flags never decode or encode bytes themselves: no int.from_bytes / to_bytes / struct call anywhere in types/enum.py and "
+                  "types/flag.py - every conversion goes through the underlying type (which knows its signedness and byte order)")
+    fx = [c for c in ast.walk(ast.parse("def f(cls, b):\n    return int.from_bytes(b, 'little', signed=getattr(cls.type, 'signed', False))\n"))
+          if isinstance(c, ast.Call) and call_name(c) in DECODERS + ("to_bytes", "pack")]
+    if len(fx) != 1:
+        raise AnalysisError("own-codec matcher no longer recognises its positive fixture")
+    n = 0
+    for rel in ("types/enum.py", "types/flag.py"):
+        mod = repo.module(rel)
+        n += 1
+        bad = [c for c in ast.walk(mod.tree) if isinstance(c, ast.Call) and call_name(c) in DECODERS + ("to_bytes", "pack", "Struct")]
+        rep.check(not bad, rid, f"{rel}:own-codec", "no byte-level conversion in this module",
+                  f"'{short(bad[0], 70) if bad else ''}' converts bytes inside the enum layer: it bypasses the underlying type, whose signedness (packchar for "
+                  "int8..int64) and byte order it would have to reproduce; E(raw) then differs from E.reads(raw)", f"{mod.path}:{bad[0].lineno}" if bad else mod.path)
+    call = repo.func("types/enum.py", "EnumMetaType.__call__")
+    conv = [c for c in walk_body(call.node.body) if isinstance(c, ast.Call) and norm(c.func) == f"{call.self_name}.type" and len(c.args) == 1]
+    rep.check(bool(conv), rid, f"{call.key}:parsable", "a non-integer value is converted by calling the underlying type on it",
+              "EnumMetaType.__call__ no longer hands parsable values to the underlying type", call.loc())
+    rep.floor(rid, "enum modules", n, 2)
+
+
+def factory_rule(repo: Repo, rep: Report, rid: str) -> None:
+    rep.rule(rid, "every enum / flag declaration gets the class its own member values describe: cstruct._make_enum / _make_flag build the class from the "
+                  "'values' argument, and if they memoise, the key contains the member values (values.items()), not only the member names")
+    from ..util import resolve_local
+
+    for name, cls in (("_make_enum", "Enum"), ("_make_flag", "Flag")):
+        fi = repo.func("cstruct.py", f"cstruct.{name}")
+        vals = fi.params[3] if len(fi.params) > 3 else "values"
+        me = fi.self_name
+        made = [c for c in walk_body(fi.node.body) if isinstance(c, ast.Call) and any(norm(a) == vals for a in c.args) and
+                (norm(c.func) == cls or norm(resolve_local(fi.node, c.func)) == cls or isinstance(c.func, ast.Name))]
+        rep.check(bool(made), rid, f"{fi.key}:from-values", f"the class is built from '{vals}'", f"{fi.qualname} no longer builds the class from its '{vals}' argument", fi.loc())
+        stores = []
+        for st in walk_body(fi.node.body):
+            if isinstance(st, ast.Assign):
+                stores += [t for t in st.targets if isinstance(t, ast.Subscript) and (chain(t.value) or ("",))[0] == me]
+        bad = None
+        for t in stores:
+            key = resolve_local(fi.node, t.slice) if isinstance(t.slice, ast.Name) else t.slice
+            has_items = any(isinstance(c, ast.Call) and call_name(c) == "items" and norm(c.func.value) == vals for c in ast.walk(key))
+            if not has_items:
+                bad = (t, norm(key))
+        rep.check(bad is None, rid, f"{fi.key}:memo", "no memo, or a memo whose key contains values.items()",
+                  f"{fi.qualname} memoises the class under the key '{bad[1] if bad else ''}', which does not contain the member values ('tuple({vals})' is only the "
+                  "names): a later declaration with the same names but other values gets the stale class, with the old values and numbering", fi.loc(bad[0]) if bad else fi.loc())
+
+
 def run(repo: Repo, rep: Report, tier: str) -> None:
     delegation_rule(repo, rep, "C12.R1")
     missing_rule(repo, rep, "C12.R2")
     numbering_rule(repo, rep, "C12.R3")
     equality_rule(repo, rep, "C12.R4")
+    own_codec_rule(repo, rep, "C12.R5")
+    factory_rule(repo, rep, "C12.R6")
+    from .c10 import lookup_order_rule
+
+    lookup_order_rule(repo, rep, "C12.R7")
